@@ -58,3 +58,7 @@ impl Hwba {
         self.alpha = alpha.clamp(0., 1.);
     }
 }
+
+#[cfg(kani)]
+#[path = "/verif/kani/hwba.rs"]
+pub(super) mod kani_verif;
